@@ -38,6 +38,7 @@ type SpecEnv struct {
 	skolemize bool              // replace them by fresh constants (goal side)
 	skolems   map[string]SVal   // constants chosen / to instantiate with (hypothesis side)
 	positive  bool              // currently at a positive top-level position
+	loopHead  *ssa.BasicBlock   // loop whose clauses are being evaluated (disambiguates `rangeindex`)
 }
 
 func (ex *Exec) specEnv(fr *Frame, st, old *State) *SpecEnv {
@@ -244,6 +245,16 @@ func (env *SpecEnv) constVal(c *types.Const) SVal {
 }
 
 func (env *SpecEnv) findLocal(name string) *ssa.Alloc {
+	if name == "rangeindex" && env.loopHead != nil {
+		// the hidden index of the range loop whose head this is
+		for _, ins := range env.loopHead.Instrs {
+			if st, ok := ins.(*ssa.Store); ok {
+				if a, ok := st.Addr.(*ssa.Alloc); ok && a.Comment == "rangeindex" {
+					return a
+				}
+			}
+		}
+	}
 	var live, all []*ssa.Alloc
 	for a := range env.fr.direct {
 		if a.Comment != name {
@@ -916,7 +927,25 @@ func (env *SpecEnv) call(x *ECall) SVal {
 		}
 		return SVal{V: ex.unbox(v.V.(Sc).T, t), T: t}
 	case "sum":
-		return env.sumCall(x)
+		return env.sumCall(x, false)
+	case "sumold":
+		// sumold(a, lo, hi): sum over the pre-state contents of a, bounds evaluated now
+		return env.sumCall(x, true)
+	case "oldat":
+		// oldat(a, i): pre-state content of a at the index i evaluated now
+		if env.old == nil || len(x.Args) != 2 {
+			return env.fail("oldat(a, i)")
+		}
+		a := env.eval(x.Args[0])
+		i := env.evalInt(x.Args[1])
+		if a.T != nil {
+			if t, ok := a.T.Underlying().(*types.Slice); ok {
+				sl := a.V.(Sc).T
+				addr := ElemAddrV{Base: app(SRef, "sarr", sl), Idx: ex.iadd(ex.soff(sl), i), Elem: t.Elem()}
+				return SVal{V: ex.load(env.old, addr, t.Elem()), T: t.Elem()}
+			}
+		}
+		return env.fail("oldat of non-slice")
 	case "fresh":
 		// fresh(x): x is an object allocated after the pre-state
 		v := env.eval(x.Args[0])
@@ -929,6 +958,14 @@ func (env *SpecEnv) call(x *ECall) SVal {
 		}
 		ap := ex.varOf(env.old, "allocptr", SInt)
 		return env.boolVal(and(app(SBool, "(_ is obj)", ref), app(SBool, ">=", app(SInt, "oid", ref), ap)))
+	case "samearray":
+		a, b := env.eval(x.Args[0]), env.eval(x.Args[1])
+		as, aok := a.V.(Sc)
+		bs, bok := b.V.(Sc)
+		if !aok || !bok || as.T.Sort != SSlice || bs.T.Sort != SSlice {
+			return env.fail("samearray of non-slices")
+		}
+		return env.boolVal(eq(app(SRef, "sarr", as.T), app(SRef, "sarr", bs.T)))
 	case "off":
 		v := env.eval(x.Args[0])
 		if sc, ok := v.V.(Sc); ok && sc.T.Sort == SSlice {
@@ -1038,7 +1075,7 @@ func (env *SpecEnv) applySpec(sf *SpecFunc, recv *SVal, args []Expr) SVal {
 
 // sum(a, lo, hi): sum of a[lo..hi) for an int slice; uninterpreted recursive
 // function over array contents with unfolding axioms (lemmas L1/L2).
-func (env *SpecEnv) sumCall(x *ECall) SVal {
+func (env *SpecEnv) sumCall(x *ECall, oldContent bool) SVal {
 	ex := env.ex
 	if len(x.Args) != 3 {
 		return env.fail("sum(a, lo, hi)")
@@ -1057,7 +1094,14 @@ func (env *SpecEnv) sumCall(x *ECall) SVal {
 		return env.fail("sum over non-Int elements")
 	}
 	s := a.V.(Sc).T
-	h := ex.heap(env.state(), contentHeapName(es), ex.contentSort(es))
+	cst := env.state()
+	if oldContent {
+		if env.old == nil {
+			return env.fail("sumold without pre-state")
+		}
+		cst = env.old
+	}
+	h := ex.heap(cst, contentHeapName(es), ex.contentSort(es))
 	arr := sel(h, app(SRef, "sarr", s))
 	off := ex.soff(s)
 	ex.declSum()
@@ -1069,9 +1113,9 @@ func (ex *Exec) declSum() {
 		return
 	}
 	ex.cx.declFun("sum$", []string{"(Array Int Int)", SInt, SInt}, SInt)
-	ex.cx.note("lemma L0: sum$(a,lo,hi) defined by sum$(a,lo,lo)=0 and sum$(a,lo,hi+1)=sum$(a,lo,hi)+a[hi] (axioms, trusted)")
+	ex.cx.note("lemmas about sum$ (axioms, trusted; each provable by induction on the range): empty range sums to 0; L1 sum$(store(a,i,v),lo,hi) = sum$(a,lo,hi) - a[i] + v if lo <= i < hi, else sum$(a,lo,hi). Unfolding instances are stated explicitly where needed (loop `assume` clauses)")
 	ex.cx.assume(Term{"(forall ((a!s (Array Int Int)) (lo!s Int) (hi!s Int)) (! (=> (<= hi!s lo!s) (= (sum$ a!s lo!s hi!s) 0)) :pattern ((sum$ a!s lo!s hi!s))))", SBool})
-	ex.cx.assume(Term{"(forall ((a!s (Array Int Int)) (lo!s Int) (hi!s Int)) (! (=> (< lo!s hi!s) (= (sum$ a!s lo!s hi!s) (+ (sum$ a!s lo!s (- hi!s 1)) (select a!s (- hi!s 1))))) :pattern ((sum$ a!s lo!s hi!s))))", SBool})
+	ex.cx.assume(Term{"(forall ((a!s (Array Int Int)) (i!s Int) (v!s Int) (lo!s Int) (hi!s Int)) (! (= (sum$ (store a!s i!s v!s) lo!s hi!s) (ite (and (<= lo!s i!s) (< i!s hi!s)) (+ (- (sum$ a!s lo!s hi!s) (select a!s i!s)) v!s) (sum$ a!s lo!s hi!s))) :pattern ((sum$ (store a!s i!s v!s) lo!s hi!s))))", SBool})
 }
 
 // ---------------------------------------------------------------------
